@@ -169,4 +169,17 @@ type ShapesAlias interface {
 	Fwd(t fwd.Thing, ts ...fwd.Thing) (fwd.Thing, error)
 }
 
+// type parameters whose names contain a mixed-case golint initialism (Id, Api, Http, Xml, Url): the mock must declare and use
+// them under the same spelling
+type ShapesInitialismParams[KeyId any, ApiKey fmt.Stringer, HttpReq any] interface {
+	Keys() []KeyId
+	Put(KeyId, ApiKey) error
+	Do(req HttpReq, more ...KeyId) (ApiKey, error)
+}
+
+type ShapesInitialismParams2[TId any, XmlT any, UserUrl any] interface {
+	Get(id TId) (XmlT, UserUrl)
+	Each(f func(TId, XmlT) bool, urls ...UserUrl) int
+}
+
 type ShapesEmpty interface{}
